@@ -493,6 +493,15 @@ func (t *textReader) onNull(ws bool) (Type, error) {
 
 // readNullType reads the null.{this} type symbol.
 func (t *textReader) readNullType() (Type, error) {
+	// The type name must directly follow the dot: no whitespace or comments.
+	c, err := t.tok.peek()
+	if err != nil {
+		return NoType, err
+	}
+	if !isIdentifierStart(c) {
+		return NoType, &SyntaxError{"invalid null type", t.tok.Pos()}
+	}
+
 	if err := t.tok.Next(); err != nil {
 		return NoType, err
 	}
